@@ -68,6 +68,7 @@ func discoverModules() ([]moduleInfo, error) {
 type Prog struct {
 	assignedFields map[*types.Info]map[*types.Var]bool // fieldEverAssigned cache
 	callSites      map[*types.Info]map[*types.Func]int  // singleCallSite cache
+	sentinels      map[*types.Var]bool                  // sentinelError cache
 	Module string
 	Tags   string
 	Fset   *token.FileSet
